@@ -304,8 +304,16 @@ Section Loop.
   Proof.
     pose proof HE as H. unfold empty_table_ok in H. simpl in H.
     rewrite !andb_true_iff, negb_true_iff in H.
-    destruct H as [[[[H1 [H2 [H3 [H4 [H5 _]]]]] H6] H7] [P1 [P2 [P3 [P4 [P5 [P6 _]]]]]]].
+    destruct H as [[[[[[[H1 [H2 [H3 [H4 [H5 _]]]]] H6] H7] [P1 [P2 [P3 [P4 [P5 [P6 _]]]]]]] _] _] _].
     repeat split; try assumption. intros b. destruct b; assumption.
+  Qed.
+
+  (* how the run loop uses Detector.empty: one full reset before the first step, `is destructive` per step *)
+  Lemma loop_facts : e_init_reset E = true /\ forall b, loop_reset (e_loop_reset E) b = negb b.
+  Proof.
+    pose proof HE as H. unfold empty_table_ok in H. rewrite !andb_true_iff in H.
+    destruct H as [[[_ H1] H2] _]. split; [exact H1|].
+    intros b. destruct (e_loop_reset E); try discriminate H2. reflexivity.
   Qed.
 
   (* emptying one container (when Detector.empty reaches it): all of its pieces are re-initialised, no other
@@ -337,18 +345,22 @@ Section Loop.
     det_empty A zero E (negb nd) d = spec_begin A zero nd prev ->
     begins_ok prev (loop i tss d).
   Proof.
+    destruct loop_facts as [_ HL].
     induction tss as [|[t st] tss IH]; intros i d prev H; [exact I|].
-    simpl. split; [exact H|].
+    simpl. rewrite HL. split; [exact H|].
     apply IH. rewrite det_empty_ok. unfold spec_begin. rewrite pixel_extract. destruct nd; reflexivity.
   Qed.
 
   Lemma begin_run_state : forall d0,
-    det_empty A zero E (negb nd) (det_empty A zero E true d0) = spec_begin A zero nd None.
-  Proof. intros d0. rewrite !det_empty_ok. unfold spec_begin. simpl. destruct nd; reflexivity. Qed.
+    det_empty A zero E (negb nd) (det_init A zero E d0) = spec_begin A zero nd None.
+  Proof.
+    intros d0. destruct loop_facts as [HI _]. unfold det_init. rewrite HI.
+    rewrite !det_empty_ok. unfold spec_begin. simpl. destruct nd; reflexivity.
+  Qed.
 
   (* the reset at the start of the run forgets everything *)
-  Lemma begin_run_forgets : forall d0 d0', det_empty A zero E true d0 = det_empty A zero E true d0'.
-  Proof. intros. rewrite !det_empty_ok. reflexivity. Qed.
+  Lemma begin_run_forgets : forall d0 d0', det_init A zero E d0 = det_init A zero E d0'.
+  Proof. intros. destruct loop_facts as [HI _]. unfold det_init. rewrite HI, !det_empty_ok. reflexivity. Qed.
 
   Lemma begins_ok_nth : forall os prev, begins_ok prev os ->
     forall i o, nth_error os i = Some o ->
@@ -374,7 +386,7 @@ Section Runs.
 
   Definition trace_of (ro : readout) (ts : list tv) (prog : program A) (d0 : det A) : list (observation A) :=
     run_loop A zero E prog (r_nd ro) (r_start ro) (Z.of_nat (length ts)) 0
-             (combine ts (steps (r_start ro) ts)) (det_empty A zero E true d0).
+             (combine ts (steps (r_start ro) ts)) (det_init A zero E d0).
 
   Lemma run_valid : forall ro prog d0 ts,
     r_times ro = R1 ts -> ro_valid ro ->
